@@ -44,7 +44,11 @@ fn check_backend<G: quizx::graph::GraphLike>(
 
 fn check_graph(spec: &DiagSpec, obs: &mut Obs) -> Result<(), String> {
     let d = spec.to_diag();
-    let truth = match truth_of(&d) {
+    // tensor evaluation reads the stored phases: boolean variables on spiders are annotations
+    // that only take effect when values are substituted, so a diagram with them denotes what it
+    // denotes with every variable false
+    obs.class_if(d.has_vars(), "with-variables");
+    let truth = match truth_of(&d.instantiate(&|_| false)) {
         Ok(t) => t,
         Err(crate::oracle::zxeval::EvalErr::TooBig) => {
             obs.skip("oracle-too-big");
@@ -352,7 +356,12 @@ pub fn def(ctx: &Ctx) -> PropertyDef {
         Section::random(
             "graph-exact",
             ctx.cases(6000, 120000),
-            move || diag_spec(DiagParams::general(ms, 4, Palette::ExactT)),
+            move || {
+                let mut p = DiagParams::general(ms, 4, Palette::ExactT);
+                p.max_vars = 3;
+                p.var_prob = 12;
+                diag_spec(p)
+            },
             check_graph,
         ),
         Section::random(
